@@ -317,5 +317,21 @@ PROPS["C17"] = dict(
     assumptions=["gqlparser.LoadSchema decides which generated SDL is a valid schema", "two field names of one type that normalise to one Go identifier are outside the claim"],
 )
 
+PROPS["C18"] = dict(
+    pkg="c18", race=False, level="exploration", prepare="gen_tool",
+    env={"VF_SHRINKTIME": "90s"},
+    quick=dict(shards=16, timeout=1500), thorough=dict(shards=16, timeout=7200),
+    claim="metamorphic testing of the generator's determinism: for every rapid-generated project (schema from the SDL grammar in 1-3 "
+          "files, random option vector incl. both exec layouts and three resolver layouts) the generator runs five times in separate "
+          "processes (fresh map seeds) with GOMAXPROCS 1/16/2/16/3, started from the project root and from a nested sub-directory, on a "
+          "clean tree and on a tree that still contains the previous output (resolver files included); the SHA-256 of every generated "
+          "file must be identical across all runs, so regeneration on a freshly generated tree is a no-op",
+    note="map-order bugs surface with probability < 1 per run; five fresh processes per project bound the miss probability, they do not remove it",
+    technique="metamorphic property testing (rapid): repeated generation in separate processes, hash-equality oracle",
+    rule="evaluation = one generator run; a project is non-trivial if it has >=2 schema files and a follow-schema layout (exec or resolver); "
+         "distinct by SDL+config",
+    assumptions=["projects whose first generation fails are C17's business and are discarded here (counted)"],
+)
+
 # properties deliberately not claimed (reason); anything else missing from PROPS is "not built yet"
 NOT_CLAIMED = {}
